@@ -487,7 +487,7 @@ pub fn gen_history(rng: &mut Rng, o: &GenOpts) -> (WorldCfg, Vec<Op>) {
         }
     };
     (
-        WorldCfg { width, height, hz, multi: o.multi, cross_check: true },
+        WorldCfg { width, height, hz, multi: o.multi, cross_check: true, move_cursor: false },
         ops,
     )
 }
